@@ -154,7 +154,43 @@ func genPath(r *core.Rng, o pathOpts) *canvas.Path {
 			p.Close()
 		}
 	}
-	return p
+	return circlePhi(p)
+}
+
+// circlePhi gives about a third of the circular arcs of p a rotation in their record, as Transform leaves
+// it after a rotation (the builder stores 0 for circles, so no builder-made path carries one). The
+// geometry does not depend on it. The value is derived from the arc's end point, not from the PRNG, so
+// that the stream of the generators is the same as before this was added.
+func circlePhi(p *canvas.Path) *canvas.Path {
+	d := p.Data()
+	changed := false
+	for i := 0; i < len(d); {
+		n := 4
+		switch d[i] {
+		case 4:
+			n = 6
+		case 8:
+			n = 8
+		case 16:
+			n = 8
+			if d[i+1] == d[i+2] && d[i+3] == 0 {
+				h := math.Abs(math.Sin(d[i+5]*12.9898+d[i+6]*78.233) * 43758.5453)
+				h -= math.Floor(h)
+				if h < 0.35 {
+					if !changed {
+						d = append([]float64(nil), d...)
+						changed = true
+					}
+					d[i+3] = h / 0.35 * math.Pi * 0.999
+				}
+			}
+		}
+		i += n
+	}
+	if !changed {
+		return p
+	}
+	return canvas.NewPathFromData(d)
 }
 
 // curvedSimpleContour returns a closed simple contour made of quads around a star-shaped control
